@@ -330,6 +330,7 @@ pub fn c15_cli_faults(ctx: &Ctx) -> bool {
 pub fn replay(name: &str, case: &Value) -> Option<Verdict> {
     match name {
         "cli_fault_sequences" => Some(replay_case::<FaultCase, _>(case, check_fault).unwrap_or_else(Verdict::Fail)),
+        "mcp_figures" => Some(replay_case::<crate::props::c17::Case, _>(case, check_c17_mcp).unwrap_or_else(Verdict::Fail)),
         "cli_fx_folder" => Some(replay_case::<crate::props::c08::Case, _>(case, check_c08_cli).unwrap_or_else(Verdict::Fail)),
         _ => None,
     }
@@ -485,4 +486,112 @@ fn strat_c08_cli(t: Tier) -> BoxedStrategy<crate::props::c08::Case> {
 
 pub fn c08_cli(ctx: &Ctx) -> bool {
     ctx.run_prop("cli_fx_folder", RULE_C08_CLI, ctx.cases(10, 600), strat_c08_cli, check_c08_cli)
+}
+
+// ---------------------------------------------------------------------------------------------
+// C17: MCP calculate_report / explain_matching show the computed figures
+// ---------------------------------------------------------------------------------------------
+
+const RULE_C17_MCP: &str = "process level: one MCP session per generated ledger; calculate_report's JSON is checked figure by figure against the report computed through the library (same rules as the JSON front-end), and explain_matching for every disposal must show the computed quantity, proceeds, leg quantities/costs/gains in full; non-trivial = the ledger has >=1 disposal; distinct by DSL hash";
+
+pub fn check_c17_mcp(c: &crate::props::c17::Case, obs: &mut Obs) -> Verdict {
+    use crate::proc::{tool_call, tool_text, Mcp};
+    use std::time::Duration;
+    let ledger = &c.gl.ledger;
+    if lgen::has_excluded_placement(ledger) {
+        obs.excluded += 1;
+        return Verdict::Pass;
+    }
+    let dsl = crate::led::to_dsl(ledger);
+    obs.hash = crate::led::hash_str(&dsl);
+    let cfg = cgt_core::Config::embedded().unwrap_or_default();
+    let fx = crate::props::c15::fx();
+    let r = match crate::tool::calc_with(ledger, None, Some(fx), &cfg) {
+        crate::tool::Outcome::Ok(r) => r,
+        _ => {
+            obs.class("tool_rejected");
+            return Verdict::Pass;
+        }
+    };
+    obs.nontrivial = r.tax_years.iter().any(|y| !y.disposals.is_empty());
+    if obs.sample.is_none() {
+        obs.sample = Some(crate::tool::sample_of(ledger));
+    }
+    let mut m = Mcp::start(false);
+    if !m.handshake() {
+        proc::inconclusive("MCP handshake failed");
+    }
+    let use_json = c.mode % 2 == 0;
+    let input = if use_json { serde_json::to_string(&crate::led::to_core(ledger)).unwrap_or_default() } else { dsl.clone() };
+    m.send(&tool_call(1, "calculate_report", serde_json::json!({"transactions": input})));
+    let Some(resp) = m.recv(Duration::from_secs(60)) else {
+        return Verdict::fail(format!("calculate_report not answered\n{dsl}"));
+    };
+    let text = match tool_text(&resp) {
+        Ok(t) => t,
+        Err(e) => return Verdict::fail(format!("calculate_report failed although the library accepts the ledger: {e}\n{dsl}")),
+    };
+    let j: Value = match serde_json::from_str(&text) {
+        Ok(j) => j,
+        Err(e) => return Verdict::fail(format!("calculate_report result is not JSON: {e}")),
+    };
+    if let Err(e) = crate::props::c17::check_json(&r, &j) {
+        return Verdict::fail(format!("MCP calculate_report: {e}\n{dsl}"));
+    }
+    let mut id = 2;
+    for y in &r.tax_years {
+        for d in &y.disposals {
+            m.send(&tool_call(id, "explain_matching", serde_json::json!({"transactions": input, "disposal_date": d.date.to_string(), "ticker": d.ticker.to_lowercase()})));
+            let Some(resp) = m.recv(Duration::from_secs(60)) else {
+                return Verdict::fail(format!("explain_matching for {} {} not answered", d.ticker, d.date));
+            };
+            id += 1;
+            let text = match tool_text(&resp) {
+                Ok(t) => t,
+                Err(e) => return Verdict::fail(format!("explain_matching cannot explain disposal {} {} listed by calculate_report: {e}\n{dsl}", d.ticker, d.date)),
+            };
+            let e: Value = serde_json::from_str(&text).unwrap_or(Value::Null);
+            let s = |k: &str| e.get(k).and_then(|v| v.as_str()).unwrap_or("").to_string();
+            let dec = |t: String| t.parse::<rust_decimal::Decimal>().ok();
+            if s("disposal_date") != d.date.to_string() || s("ticker") != d.ticker {
+                return Verdict::fail(format!("explain_matching answered for {} {}, asked {} {}", s("ticker"), s("disposal_date"), d.ticker, d.date));
+            }
+            if dec(s("quantity")) != Some(d.quantity) || dec(s("proceeds")) != Some(d.proceeds) || dec(s("total_gain_or_loss")) != Some(d.net_gain_or_loss()) {
+                return Verdict::fail(format!("explain_matching {} {}: quantity/proceeds/total {} / {} / {} but computed {} / {} / {}", d.ticker, d.date, s("quantity"), s("proceeds"), s("total_gain_or_loss"), d.quantity, d.proceeds, d.net_gain_or_loss()));
+            }
+            let legs = e.get("matches").and_then(|x| x.as_array()).cloned().unwrap_or_default();
+            if legs.len() != d.matches.len() {
+                return Verdict::fail(format!("explain_matching {} {}: {} legs, computed {}", d.ticker, d.date, legs.len(), d.matches.len()));
+            }
+            for (jl, ml) in legs.iter().zip(d.matches.iter()) {
+                let g = |k: &str| jl.get(k).and_then(|v| v.as_str()).unwrap_or("").to_string();
+                let rule = match ml.rule {
+                    cgt_core::MatchRule::SameDay => "Same Day",
+                    cgt_core::MatchRule::BedAndBreakfast => "Bed & Breakfast",
+                    cgt_core::MatchRule::Section104 => "Section 104",
+                };
+                if g("rule") != rule || dec(g("quantity")) != Some(ml.quantity) || dec(g("allowable_cost")) != Some(ml.allowable_cost) || dec(g("gain_or_loss")) != Some(ml.gain_or_loss) {
+                    return Verdict::fail(format!("explain_matching {} {}: leg {jl} but computed {ml:?}", d.ticker, d.date));
+                }
+                let acq = jl.get("acquisition_date").and_then(|v| v.as_str()).map(String::from);
+                if acq != ml.acquisition_date.map(|x| x.to_string()) {
+                    return Verdict::fail(format!("explain_matching {} {}: leg date {acq:?}, computed {:?}", d.ticker, d.date, ml.acquisition_date));
+                }
+            }
+        }
+    }
+    let (code, _) = m.close(Duration::from_secs(20));
+    if code != Some(0) {
+        return Verdict::fail(format!("MCP server exit status {code:?} after stdin closed"));
+    }
+    Verdict::Pass
+}
+
+fn strat_c17_mcp(t: Tier) -> BoxedStrategy<crate::props::c17::Case> {
+    let cfg = GenCfg::basic().secs(2).days(2, t.pick(8, 14)).splits(SplitMode::Terminating).dividends(true).years(2015, 2023);
+    (lgen::ledger_strategy(cfg), 0u8..2).prop_map(|(gl, mode)| crate::props::c17::Case { gl, mode }).boxed()
+}
+
+pub fn c17_mcp(ctx: &Ctx) -> bool {
+    ctx.run_prop("mcp_figures", RULE_C17_MCP, ctx.cases(4, 400), strat_c17_mcp, check_c17_mcp)
 }
